@@ -17,7 +17,7 @@ def shape_fn(name, builder, file=GLB, nth=1, extra=""):
 A(Raw(
     shape_fn("share_control_fields", "share_control_header") +
     shape_fn("share_data_fields", "share_data_header") +
-    shape_fn("demand_active_fields", "ts_demand_active_pdu") +
+    shape_fn("demand_active_fields", "ts_demand_active_pdu", extra=" && arr_of(f[6].1, |g: Seq<(Seq<char>, MV)>| capability_set_fields(g))") +
     shape_fn("control_fields", "ts_control_pdu") +
     shape_fn("error_info_fields", "ts_set_error_info_pdu") +
     shape_fn("fp_update_fields", "ts_fp_update") +
@@ -29,6 +29,18 @@ pub open spec fn arr_of(m: MV, shape: spec_fn(Seq<(Seq<char>, MV)>) -> bool) -> 
     m is Arr && forall|i: int| 0 <= i < m->Arr_0.len() ==> (#[trigger] m->Arr_0[i]) is Comp && shape(m->Arr_0[i]->Comp_0)
 }
 """, mod="global", name="reader_shapes"))
+# `pdu.pdu_type != PDUType::PdutypeDatapdu` calls the derived PartialEq: Verus needs its meaning.  For a field-less enum
+# #[derive(PartialEq)] is equality of the variants (alternative with the same effect: add_derive="Structural" on the Item in session.py)
+A(Raw(r"""
+impl vstd::std_specs::cmp::PartialEqSpecImpl for PDUType {
+    open spec fn obeys_eq_spec() -> bool { true }
+    open spec fn eq_spec(&self, other: &Self) -> bool { *self == *other }
+}
+impl vstd::std_specs::cmp::PartialEqSpecImpl for PDUType2 {
+    open spec fn obeys_eq_spec() -> bool { true }
+    open spec fn eq_spec(&self, other: &Self) -> bool { *self == *other }
+}
+""", mod="global", name="derived_eq", trusted="#[derive(PartialEq)] of the field-less enums PDUType / PDUType2 compares the variants (std semantics of the derive)"))
 SS2 = "proof { reveal_with_fuel(same_shape, 2); }"
 
 # ---- parsers (C06: total on any bytes; unknown kinds are errors)
@@ -59,14 +71,25 @@ G("from_fp", impl=r"impl FastPathUpdate", props=["C06", "C10"], keys=True,
 G("new", impl=r"impl Client", props=["C12"],
   ensures=[("C12", "initial-state", "r.st() is DemandActivePDU && r.uid() == user_id && r.chan() == channel_id && r.share() is None")])
 G("read_demand_active_pdu", impl=r"impl Client", props=["C06", "C12"], keys=True,
-  ensures=STATE_FRAME + [("C12", "share-id-recorded", "r is Ok && r->Ok_0 ==> final(self).share() is Some"), ("C12", "share-id-kept", "r is Ok && !r->Ok_0 ==> final(self).share() == old(self).share()")])
+  ensures=STATE_FRAME + [("C12", "share-id-recorded", "r is Ok && r->Ok_0 ==> final(self).share() is Some"), ("C12", "share-id-kept", "r is Ok && !r->Ok_0 ==> final(self).share() == old(self).share()")],
+  hints=[(r"cast!\(DataType::Trame, pdu\.message\[\"capabilitySets\"\]\)", 1, "it:", "at")],
+  loops={1: """invariant
+            forall|k: int| 0 <= k < it.elements.len() ==> (#[trigger] it.elements[k]).fview() is Comp && capability_set_fields(it.elements[k].fview()->Comp_0),
+            self.st() == old(self).st() && self.same_config(old(self)) && self.share() == old(self).share(),"""})
 G("read_synchronize_pdu", impl=r"impl Client", props=["C06", "C12"], keys=True, ensures=STATE_FRAME + [(None, "share", "final(self).share() == old(self).share()")])
 G("read_control_pdu", impl=r"impl Client", props=["C06", "C12"], keys=True, ensures=STATE_FRAME + [(None, "share", "final(self).share() == old(self).share()")])
 G("read_font_map_pdu", impl=r"impl Client", props=["C06", "C12"], keys=True, ensures=STATE_FRAME + [(None, "share", "final(self).share() == old(self).share()")])
 # rule R6: Verus' for-loops do not support `continue`: the loop over the parsed PDUs is spelled as an index loop (increment first, same order, same elements)
 G("read_data_pdu", impl=r"impl Client", props=["C06", "C12"], keys=True,
   body_sub=[(r"for pdu in message\.inner\(\) \{", "let __items = message.inner(); let mut __i: usize = 0; while __i < __items.len() { let pdu = &__items[__i]; __i += 1;")],
-  loops={1: "invariant __i <= __items.len()\n decreases __items.len() - __i"},
+  closures={1: dict(params="", ret="-> (c: Component)", spec="ensures c.mv() == share_control_view(0x11, 0, Seq::empty())")},
+  pre=SS2,
+  loops={1: """invariant __i <= __items.len(),
+            forall|k: int| 0 <= k < __items@.len() ==> same_shape(share_control_view(0x11, 0, Seq::empty()), (#[trigger] __items@[k]).fview()),
+            self.same_config(old(self)) && self.share() == old(self).share(),
+            self.st() is DemandActivePDU || self.st() == old(self).st(),
+        decreases __items.len() - __i"""},
+  hints=[(r"let __items = message\.inner\(\);", 1, "proof { assert(message.mv() is Arr); assert forall|k: int| 0 <= k < __items@.len() implies same_shape(share_control_view(0x11, 0, Seq::empty()), (#[trigger] __items@[k]).fview()) by { assert(message.mv()->Arr_0[k] == __items@[k].fview()); } }", "atend")],
   ensures=[("C12", "only-deactivate-resets", "final(self).st() is Data || final(self).st() is DemandActivePDU || final(self).st() == old(self).st()"),
            (None, "config", "final(self).same_config(old(self)) && final(self).share() == old(self).share()")])
 A(Raw(r"""
@@ -114,7 +137,23 @@ G("read", impl=r"impl Client", props=["C12", "C06", "C10"],
         + mcs::mcs_frame(u, g, data_pdu_frame(sh, old(self).uid(), 0x27, fontlist_body())) })"""),
     ("C12", "no-transition-on-error-before-data", "r is Err && !(old(self).st() is Data) ==> final(self).st() == old(self).st()"),
     ("C12,C10", "events-only-in-data", "!(old(self).st() is Data) ==> final(callback).calls() == old(callback).calls()"),
-    ("C10", "appends-only", "appended_only(old(callback).calls(), final(callback).calls())")])
+    ("C10", "appends-only", "appended_only(old(callback).calls(), final(callback).calls())"),
+    # added (needed by RdpClient::read also on the error paths): only the activation step writes
+    ("C12", "writes-only-on-demand-active", "!(old(self).st() is DemandActivePDU) ==> final(mcs).written() == old(mcs).written()")],
+  hints=[(r"self\.write_confirm_active_pdu\(mcs\)\?;", 1, "let ghost s1 = *self; let ghost m0 = *mcs;", "before"),
+         (r"self\.write_confirm_active_pdu\(mcs\)\?;", 1, "let ghost m1 = *mcs;"),
+         # the confirm-active frame (existential of the callee) followed by the four finalization frames: same left-nested concatenation
+         (r"self\.write_client_finalize\(mcs\)\?;", 1, """proof {
+             let u = old(mcs).uid()->Some_0; let g = old(mcs).chans()["global"@]; let sh = o32(self.share(), 0);
+             let body = choose|body: Seq<u8>| #[trigger] share_control_bytes(0x13, s1.uid(), body).len() > 0 && m1.written() =~= m0.written() + mcs::mcs_frame(m0.uid()->Some_0, m0.chans()["global"@], share_control_bytes(0x13, s1.uid(), body));
+             assert(m1.written() == m0.written() + mcs::mcs_frame(u, g, share_control_bytes(0x13, old(self).uid(), body)));
+             assert(mcs.written() =~= old(mcs).written()
+                 + mcs::mcs_frame(u, g, share_control_bytes(0x13, old(self).uid(), body))
+                 + mcs::mcs_frame(u, g, data_pdu_frame(sh, old(self).uid(), 0x1F, sync_body(old(self).chan())))
+                 + mcs::mcs_frame(u, g, data_pdu_frame(sh, old(self).uid(), 0x14, control_body(4)))
+                 + mcs::mcs_frame(u, g, data_pdu_frame(sh, old(self).uid(), 0x14, control_body(1)))
+                 + mcs::mcs_frame(u, g, data_pdu_frame(sh, old(self).uid(), 0x27, fontlist_body())));
+         }""")])
 
 # ---------------- client.rs: RdpClient
 A(Item(CLI, "struct", "RdpClient", mod="client"))
@@ -142,15 +181,29 @@ impl Client {
     pub closed spec fn name_len_ok(&self) -> bool { self.name@.len() <= 1024 }
 }
 """, mod="global", name="global_specs2"))
+A(Raw(r"""
+/// the closed accessors of global::Client, for the client module
+pub proof fn lemma_client_specs(c: &Client)
+    ensures c.same_config(c), c.name_len_ok() == (c.name@.len() <= 1024)
+{}
+""", mod="global", name="global_lemmas"))
 def C(name, **kw):
     A(Fn(CLI, name, impl=r"RdpClient<S>", mod="client", **kw))
+KIND = lambda r, k: "%s is Err && %s->Err_0 is RdpError && %s->Err_0->RdpError_0.kind == RdpErrorKind::%s" % (r, r, r, k)
+BITS = "proof { " + " ".join("assert((0u16 | %su16) == %su16 && (%su16 | 0u16) == %su16) by(bit_vector);" % (c, c, c, c) for c in ("0x1000", "0x2000", "0x4000", "0x0800", "0x8000")) + " }"
 C("write", props=["C11", "C12"],
   requires=["old(self).ready()"],
   ensures=[("C11,C12", "frame", "final(self).incoming() == old(self).incoming() && final(self).same_session(old(self)) && final(self).state() == old(self).state() && is_prefix(old(self).wire(), final(self).wire())"),
            ("C11", "pointer-exactly-once-exact-values", "old(self).active() && r is Ok && event is Pointer ==> final(self).wire() =~= old(self).wire() + old(self).frame_of(old(self).input_pdu(0x8001, le16(pointer_flags(event->Pointer_0.button, event->Pointer_0.down)) + le16(event->Pointer_0.x) + le16(event->Pointer_0.y)))"),
            ("C11", "key-exactly-once-exact-values", "old(self).active() && r is Ok && event is Key ==> final(self).wire() =~= old(self).wire() + old(self).frame_of(old(self).input_pdu(0x0004, le16(key_flags(event->Key_0.down)) + le16(event->Key_0.code) + le16(0)))"),
            ("C11", "unsendable-kinds-refused", "event is Bitmap ==> r is Err && final(self).wire() == old(self).wire()"),
-           ("C12,C11", "input-gated-by-state", "!old(self).active() ==> r is Err && final(self).wire() == old(self).wire()")])
+           ("C12,C11", "input-gated-by-state", "!old(self).active() ==> r is Err && final(self).wire() == old(self).wire()"),
+           # added: the error kinds try_write dispatches on
+           ("C12", "gate-error-kind", "!old(self).active() && !(event is Bitmap) ==> " + KIND("r", "InvalidAutomata")),
+           ("C11", "refusal-error-kind", "event is Bitmap ==> " + KIND("r", "UnexpectedType"))],
+  pre="proof { lemma_client_specs(&self.global); }",
+  hints=[(r"match pointer\.button \{", 1, BITS, "before"),
+         (r"if !key\.down \{", 1, BITS, "before")])
 C("try_write", props=["C11", "C12"],
   requires=["old(self).ready()"],
   ensures=[("C11,C12", "frame", "final(self).incoming() == old(self).incoming() && final(self).same_session(old(self)) && final(self).state() == old(self).state() && is_prefix(old(self).wire(), final(self).wire())"),
@@ -164,7 +217,8 @@ C("read", props=["C12", "C06", "C10"],
   ensures=[("C12", "frame", "final(self).same_session(old(self)) && is_prefix(old(self).wire(), final(self).wire()) && is_suffix(final(self).incoming(), old(self).incoming())"),
            ("C12,C10", "events-only-when-active", "!old(self).active() ==> final(callback).calls() == old(callback).calls()"),
            ("C10", "appends-only", "appended_only(old(callback).calls(), final(callback).calls())"),
-           ("C12", "nothing-written-outside-activation", "!(old(self).state() is DemandActivePDU) ==> final(self).wire() == old(self).wire()")])
+           ("C12", "nothing-written-outside-activation", "!(old(self).state() is DemandActivePDU) ==> final(self).wire() == old(self).wire()")],
+  pre="proof { lemma_client_specs(&self.global); }")
 C("shutdown", props=["C03"])
 
 
